@@ -134,6 +134,24 @@ CHECKS = {
         technique="Lean 4 proof (const rejection at the store primitive; whole-evaluator invariant for const globals) + "
                   "exhaustive kind x path matrix",
         ref="DESIGN.md §6 C09"),
+    "C19": dict(
+        text="Lean 4 theorems (CbProps/C19.lean) about a functional model that follows stdlib/std/map.cb function by "
+             "function (stored heights, rotate_left/right, the rebalancing tail, in-order-successor removal, Map wrapper "
+             "with count): insert and remove preserve BST order + correct stored heights + AVL balance; lookups after "
+             "insert/remove are those of a finite map; size changes by exactly the presence of the key; after ANY sequence "
+             "of inserts/removes from the empty map count = number of nodes and all invariants hold; fib(h+2) <= n+1 and "
+             "hence 2^(25h) <= (n+2)^36 (height <= 1.44 log2(n+2)) for every tree of fewer than 2^63 nodes; sort is a "
+             "sorted permutation; Queue is FIFO. Tie (shape-exact): the real .cb containers run in the interpreter on "
+             "generated operation sequences; after every Map mutation a Cb traversal prints the whole tree with heights, "
+             "which must equal the model's tree; Vector/Queue contents and answers vs the list model; the CB_VERIF "
+             "alloc/free log is checked for double frees and unreleased removed nodes.",
+        note="Vector/Queue linked-list code is tied to abstract list models only (not mirrored). Element type int. "
+             "`decide +kernel` is used for one finite table (heights 0..91 of the Fibonacci bound). Listed findings: "
+             "container destructors release nothing at scope exit; pointer-declaration initialisers run twice (one leaked "
+             "block per allocation).",
+        technique="Lean 4 proof (AVL invariants, finite-map refinement, Fibonacci height bound) + shape-exact differential "
+                  "correspondence + alloc/free log analysis",
+        ref="DESIGN.md §6 C19"),
 }
 
 PENDING = {}
